@@ -61,3 +61,10 @@ package lang
 //@ func IsNillableType
 //@   property C14
 //@   pure
+
+// C02: MatchNilCheck recognises exactly `x == nil` / `x != nil` on an error value;
+// the boolean says which of the two, the value is the operand that is not the nil
+// constant.
+//@ func MatchNilCheck
+//@   property C02
+//@   ensures shape: result0 != nil ==> istype(v, *ssa.BinOp) && (v.(*ssa.BinOp).Op == token.EQL || v.(*ssa.BinOp).Op == token.NEQ) && (result1 <==> v.(*ssa.BinOp).Op == token.EQL) && ((result0 == v.(*ssa.BinOp).Y && v.(*ssa.BinOp).X.String() == "nil:error") || (result0 == v.(*ssa.BinOp).X && v.(*ssa.BinOp).Y.String() == "nil:error"))
